@@ -580,6 +580,23 @@ def family_binary(check, tier):
             check.count(('binr', nm, s))
         lib.correspond(check, 'bin_read_' + nm, DT_IMPORTS, 'text * out (list Z)',
                        '(fun c => bout_eqb (%s (fst c)) (snd c))' % cdec, rc, show='(fun c : text * out (list Z) => %s (fst c))' % cdec)
+    # a ByteArray value is a SEQUENCE of chunks: its text form is that of the concatenation, whatever the
+    # chunk boundaries (a non-final chunk whose length is not a multiple of 3 must not be padded on its own)
+    for nm, enc, _, _, xs in encs:
+        for _ in range(40 if tier == 'quick' else 600):
+            chunks = tuple(bytes(rng.randrange(256) for _ in range(rng.choice([0, 1, 2, 2, 4, 5, 7, 8])))
+                           for _ in range(rng.randint(2, 4)))
+            whole = b''.join(chunks)
+            o = observe(prot.to_unicode, ByteArray, chunks, enc)
+            w = observe(prot.to_unicode, ByteArray, [whole], enc)
+            check.count(('binchunks', nm, chunks))
+            if o != w:
+                check.fail('C08|ByteArray|chunks|%s' % nm,
+                           '%s: chunks %r written %r, their concatenation %r' % (nm, chunks, o, w),
+                           {'chunks': [list(c) for c in chunks], 'encoding': nm})
+            elif o[0] == 'ok' and xs and not xsd_ok(xs, o[1]):
+                check.fail('C08|ByteArray|out_lex|%s' % nm, '%s text %r is not a valid xs:%s' % (nm, o[1][:24], xs),
+                           {'chunks': [list(c) for c in chunks]})
     # in-lex oracle: every literal lxml accepts as xs:base64Binary (line-wrapped MIME/PEM style, blanks
     # between the groups) must be read as the bytes it denotes
     import base64 as _b64
